@@ -1072,6 +1072,10 @@ class Interp(object):
                     return o.cls.class_attrs[name]
             if name == '__dict__':
                 return o.attrs
+            if o.cls is None:
+                # an object made by a contract (stand-in for a library / dependency object): a missing attribute is a gap of the
+                # contract, not an AttributeError of the program
+                raise CheckerError('line %s: attribute %s of the contract object %s is not modelled' % (getattr(node, 'lineno', '?'), name, o.name))
             raise SymRaise('AttributeError', ('%s has no attribute %s' % (o.name, name),), node)
         if isinstance(o, ClassVal):
             if name == '__name__':
